@@ -227,6 +227,34 @@ def run(A, R: Report, thorough: bool):
                             f'`{f.short}` drops the in-memory result: a later request from the same object runs the task again (in-memory tasks) or reloads needlessly', where=where(f, node))
 
     # ---- R04.8 the readable-name helper removes symbolic links only (never a stored result, which would be computed again)
+    # ---- R04.9 the decision "a data object is there" is an identity question
+    R.rule('R04.9', 'data objects that Task code tests for truth (`if self._data and ...`) have plain object truthiness: no data class defines __len__ / __bool__', floor=1)
+    datac = A.cls('Data')
+    taskc9 = A.cls('Task')
+    tests9 = []
+    for m_ in taskc9.methods.values():
+        cx = Ctx(m_, ('inst', taskc9))
+        for n_ in A.typer.own_nodes(m_):
+            cand = []
+            if isinstance(n_, (ast.If, ast.While, ast.IfExp)):
+                cand.append(n_.test)
+            elif isinstance(n_, ast.BoolOp):
+                cand += n_.values
+            elif isinstance(n_, ast.UnaryOp) and isinstance(n_.op, ast.Not):
+                cand.append(n_.operand)
+            elif isinstance(n_, ast.Assert):
+                cand.append(n_.test)
+            for e_ in cand:
+                if isinstance(e_, (ast.Name, ast.Attribute)):
+                    tys = [t_ for t_ in A.typer.expr(e_, cx) if t_[0] == 'inst' and hasattr(t_[1], 'is_subclass_of') and t_[1].is_subclass_of(datac)]
+                    if tys:
+                        tests9.append((m_, e_))
+    R.require(tests9, 'anchor: no truth test of a data object found in Task (the load guard `self._data and ...`)')
+    sized = [(ci_, nm) for ci_ in datac.all_subclasses(include_self=True) for nm in ('__bool__', '__len__') if nm in ci_.methods]
+    R.check(not sized, 'R04.9', 'Data classes: truthiness', key_of('data-truthiness', sorted(f'{c_.short}.{nm}' for c_, nm in sized)), f'{len(tests9)} truth test(s) of data objects in Task; no data class overrides truthiness',
+            f'{", ".join(f"{c_.short}.{nm}" for c_, nm in sized)} makes a data object without a loaded value falsy, but Task tests data objects for truth (`{src(tests9[0][1])}` in {tests9[0][0].short}): '
+            'the load branch is skipped and a task whose result is stored is run again', where=where(sized[0][0].methods[sized[0][1]]) if sized else where(tests9[0][0], tests9[0][1]))
+
     R.rule('R04.8', 'create_readable_filenames / _create_softlink_to_task_data unlink a path only after is_symlink() of that very path', floor=1)
     n8 = 0
     for fname in ('Chain.create_readable_filenames', 'Chain._create_softlink_to_task_data'):
